@@ -9,11 +9,13 @@
    by the returned generators; hence every returned orbit lies inside an orbit of Aut(g, classes)
    (soundness).  MISSING for the full property: completeness — that the returned generators
    generate the whole of Aut(g, classes), i.e. that no automorphism is lost by the pruning
-   (the McKay-Piperno theorem); and the storage-reuse statement.  Those remain explored (C02). *)
+   (the McKay-Piperno theorem); and the storage-reuse statement.  Those remain explored (C02).
+   The model follows the code after commit a4bdb37; it never returns Panic and, from the fuel search_fuel n
+   on, always returns (C02_search_returns_partial), so the statements below are not vacuous for any input. *)
 From Coq Require Import List Arith ZArith.
 From Mamba Require Import Disjoint.Model Disjoint.Proofs.
 From Mamba Require Import Canon.AutBase Canon.Aut Canon.Group Canon.Orbit.
-From Mamba Require Import Canon.Iso Canon.SearchModel Canon.SearchInit Canon.SearchAut.
+From Mamba Require Import Canon.Iso Canon.SearchModel Canon.SearchInit Canon.SearchProofs Canon.SearchAut Canon.SearchTotal.
 Import ListNotations.
 Open Scope nat_scope.
 
@@ -70,6 +72,17 @@ Proof.
   eapply Forall_impl; [|exact HA]. intros a [Ha _]. exact Ha.
 Qed.
 Print Assumptions C02_search_labels_partial.
+
+(* The model never panics and returns with enough fuel, for every simple graph and admissible vertex classes. *)
+Theorem C02_search_returns_partial :
+  forall (g : graph) (cls : option (list (list nat))) fuel,
+    simple g -> cls_ok (length g) cls ->
+    canon_search fuel g cls <> Panic /\
+    (search_fuel (length g) <= fuel -> exists r, canon_search fuel g cls = Ok r).
+Proof.
+  intros g cls fuel Hg Hc. split; [exact (canon_search_total g cls Hg Hc fuel)|exact (canon_search_returns g cls Hg Hc fuel)].
+Qed.
+Print Assumptions C02_search_returns_partial.
 
 (* Non-vacuity: the 6-cycle with the classes {0,3} | {1,2,4,5}: two generators, both automorphisms,
    orbits {0,3} and {1,2,4,5}. *)
